@@ -450,8 +450,11 @@ func genGame(o *Out, r *rand.Rand, thorough bool) {
 		}
 		for k := 0; k < steps; k++ {
 			x := r.Intn(100)
+			if g.deep && x >= 16 && x < 30 {
+				x = 0 // many more take-backs in the scripts that may go below fork points
+			}
 			switch {
-			case x < 6 && style != 1:
+			case x < 6 && (style != 1 || g.deep):
 				g.pop()
 			case x < 9:
 				g.fork()
